@@ -257,7 +257,7 @@ func runUMFull(c UCase) (Case, unmarshaler.UnmarshaledError) {
 	}()
 	unchanged := fmt.Sprintf("%#v", deepView(input)) == snapshot
 	// repeat: unmarshaling the same input again must succeed or fail alike with identical observable state
-	stable := true
+	stable, stableM := true, true
 	first := ""
 	// a definition carrying two keys of one name: which of them binds must not depend on map
 	// iteration order (F10) - Go reverses a two-entry map in roughly one iteration out of eight,
@@ -294,6 +294,9 @@ func runUMFull(c UCase) (Case, unmarshaler.UnmarshaledError) {
 				first = cur
 			} else if cur != first {
 				stable = false
+				if maskAddrs(cur) != maskAddrs(first) {
+					stableM = false
+				}
 				if os.Getenv("VERIF_DEBUG_STABLE") != "" {
 					fmt.Fprintf(os.Stderr, "UNSTABLE\n first: %s\n  this: %s\n", first, cur)
 				}
@@ -351,14 +354,14 @@ func runUMFull(c UCase) (Case, unmarshaler.UnmarshaledError) {
 				before := w.orerrRaw(res)
 				inspectRestored(res, 0)
 				if after := w.orerrRaw(res); after != before {
-					stable = false
+					stable, stableM = false, false
 					obsStr += " | INSPECTION CHANGED THE RESULT"
 				}
 			}()
 		}
 	}
-	coq := fmt.Sprintf("{| c_cfg := %s; c_in := %s; c_decerr := %s; c_obs := {| uo_class := %s; uo_is := %s; uo_kind := %s; uo_field := %s; uo_unchanged := %s; uo_stable := %s; uo_res := %s |} |}",
-		w.cfgCoq(), ddCoq(input, w.targets), cBool(decErr), cStr(class), cBoolList(is), cStr(kind), cStr(field), cBool(unchanged), cBool(stable), resCoq)
+	coq := fmt.Sprintf("{| c_cfg := %s; c_in := %s; c_decerr := %s; c_obs := {| uo_class := %s; uo_is := %s; uo_kind := %s; uo_field := %s; uo_unchanged := %s; uo_stable := %s; uo_stable_m := %s; uo_res := %s |} |}",
+		w.cfgCoq(), ddCoq(input, w.targets), cBool(decErr), cStr(class), cBoolList(is), cStr(kind), cStr(field), cBool(unchanged), cBool(stable), cBool(stableM), resCoq)
 	var tags []string
 	sum := fmt.Sprintf("strict=%v default=%v reg=%v custom=%v builtin=%v doc=%s", c.Cfg.Strict, c.Cfg.Default != nil, c.Cfg.Reg, c.Cfg.Custom, c.Cfg.Builtin, docSummary(c.Doc))
 	if c.NilTop {
